@@ -4,7 +4,7 @@
 W=$1; cd $W || exit 2
 export CARGO_BUILD_JOBS=6 CARGO_TARGET_DIR=$W/target CARGO_NET_OFFLINE=true
 OUT=$W/seed_out
-git checkout -q -- . ; rm -f sentinel-core/tests/seed_demo*.rs
+git checkout -q -- . ; git clean -fdq -e target -e seed_out -e demo_crate ; rm -f sentinel-core/tests/seed_demo*.rs
 git apply $OUT/patch.diff || { echo "PATCH-DOES-NOT-APPLY"; exit 1; }
 suite=$(cargo test --workspace --no-fail-fast --offline 2>&1 | grep -E '^test result' | head -1)
 echo "suite-with-patch: $suite"
@@ -18,7 +18,7 @@ demo_run() {
 }
 demo_install
 echo "demo-with-patch: $(demo_run | tr '\n' ' ')"
-git checkout -q -- . ; 
-if [ -f $OUT/demo.diff ]; then git apply $OUT/demo.diff; fi
+git checkout -q -- . ; git clean -fdq -e target -e seed_out -e demo_crate
+demo_install
 echo "demo-without-patch: $(demo_run | tr '\n' ' ')"
 git checkout -q -- . ; rm -f sentinel-core/tests/seed_demo*.rs
